@@ -8,6 +8,14 @@
 //! `pmfchild`, `RAYON_NUM_THREADS` set to the wanted size of the global pool) under a
 //! watchdog, because the property is about termination: a deadlock is reported as
 //! `terminated=0`, never as a hang of the harness.
+//!
+//! The case line carries `cpool` (size of the caller's own pool when the call site is a pool
+//! worker, `none` outside any pool); the child reports what the sequential-branch test of
+//! the ordered variant sees (`threads` = `current_num_threads()`, `worker` =
+//! `current_thread_index().is_some()`) and, for the ordered variant, `oncaller`, the number
+//! of items mapped on the calling thread (all of them in the sequential branch, none
+//! otherwise).  The class that deadlocked before the repair of defect 7b (ordered variant,
+//! task of a global pool of one thread) is part of both tiers, all lengths.
 use crate::util::*;
 use std::io::Write;
 use std::process::{Command, Stdio};
@@ -39,8 +47,18 @@ pub fn expect(prim: &str, len: usize) -> u64 {
     }
 }
 
-/// Runs one primitive on the current thread; returns (value, upper size hint, items).
-fn run_prim(prim: &str, len: usize) -> (u64, Option<usize>, usize) {
+/// Runs one primitive on the current thread; returns (value, upper size hint, items) and,
+/// for the ordered variant, the number of items that were mapped on the calling thread
+/// (all of them in the sequential branch, none when the consumers do the mapping).
+fn run_prim(prim: &str, len: usize) -> ((u64, Option<usize>, usize), Option<usize>) {
+    let me = std::thread::current().id();
+    let on = AtomicUsize::new(0);
+    let note = || if std::thread::current().id() == me { on.fetch_add(1, Ordering::Relaxed); };
+    let r = run_prim0(prim, len, &note);
+    (r, if is_ord(prim) { Some(on.load(Ordering::Relaxed)) } else { None })
+}
+
+fn run_prim0(prim: &str, len: usize, note: &(impl Fn() + Sync)) -> (u64, Option<usize>, usize) {
     match prim {
         "pmf" => {
             let mut it = 0..len;
@@ -67,12 +85,12 @@ fn run_prim(prim: &str, len: usize) -> (u64, Option<usize>, usize) {
         "ord" => {
             let mut it = 0..len;
             let h = it.size_hint().1;
-            (it.par_map_fold_ord(f, 7u64, |a, r| (a * 31 + r) % ORD_MOD), h, len)
+            (it.par_map_fold_ord(|i| { note(); f(i) }, 7u64, |a, r| (a * 31 + r) % ORD_MOD), h, len)
         }
         "ord_with" => {
             let mut it = 0..len;
             let h = it.size_hint().1;
-            (it.par_map_fold_ord_with(5u64, |t: &mut u64, i| f(i) + *t - 5, 7u64, |a, r| (a * 31 + r) % ORD_MOD), h, len)
+            (it.par_map_fold_ord_with(5u64, |t: &mut u64, i| { note(); f(i) + *t - 5 }, 7u64, |a, r| (a * 31 + r) % ORD_MOD), h, len)
         }
         "node_apply" => {
             // one chunk per node
@@ -181,9 +199,11 @@ pub fn child(args: &[String]) {
         return;
     }
     let work = move || {
+        // what the sequential-branch test of the ordered variant looks at
         let threads = rayon::current_num_threads();
-        let (v, h, items) = run_prim(&prim, len);
-        (v, h, items, threads)
+        let worker = rayon::current_thread_index().is_some();
+        let ((v, h, items), oncaller) = run_prim(&prim, len);
+        (v, h, items, threads, worker, oncaller)
     };
     let r = catch(std::panic::AssertUnwindSafe(move || match site.as_str() {
         // the test thread, outside any pool: tasks go to the global pool
@@ -209,11 +229,24 @@ pub fn child(args: &[String]) {
             p.scope(|s| s.spawn(|_| r = Some(work())));
             r.unwrap()
         }
+        // PROBE ONLY, not part of the matrix (the model has one caller): two tasks of one
+        // scope of the global pool call the primitive concurrently
+        "gpair" => {
+            let (mut r1, mut r2) = (None, None);
+            rayon::scope(|s| {
+                s.spawn(|_| r1 = Some(work()));
+                s.spawn(|_| r2 = Some(work()));
+            });
+            let _ = r2.unwrap();
+            r1.unwrap()
+        }
         other => panic!("unknown site {other}"),
     }));
     match r {
-        Ok((v, h, items, threads)) => println!("status=ok value={v} hint={} items={items} threads={threads}",
-            h.map(|x| x.to_string()).unwrap_or("none".into())),
+        Ok((v, h, items, threads, worker, oncaller)) => println!(
+            "status=ok value={v} hint={} items={items} threads={threads} worker={}{}",
+            h.map(|x| x.to_string()).unwrap_or("none".into()), worker as u8,
+            oncaller.map(|x| format!(" oncaller={x}")).unwrap_or_default()),
         Err(p) => println!("status=panic:{}", sanitize(&p)),
     }
 }
@@ -262,9 +295,21 @@ fn lens_for(pool: usize, big: bool) -> Vec<usize> {
     v
 }
 
-/// the class for which the ordered variant is known to deadlock (DESIGN.md 7b)
-fn known_deadlock(c: &Case) -> bool {
+/// the class for which the ordered variant used to deadlock (DESIGN.md 7b, repaired: the
+/// only thread of a pool now folds sequentially).  Kept as regression cases in both tiers;
+/// a deadlock here is deterministic, so a timeout is not retried.
+fn formerly_deadlocking(c: &Case) -> bool {
     is_ord(c.prim) && (c.site == "gspawn" || c.site == "gdetach") && c.g == 1
+}
+
+/// size of the caller's own pool when the caller is a pool worker, "none" for a thread
+/// outside any pool
+fn caller_pool(c: &Case) -> String {
+    match c.site {
+        "outside" => "none".to_string(),
+        "gspawn" | "gdetach" => c.g.to_string(),
+        _ => c.pool.to_string(),
+    }
 }
 
 pub fn run(seed: u64, mode: &str, out: &mut impl Write) {
@@ -272,7 +317,6 @@ pub fn run(seed: u64, mode: &str, out: &mut impl Write) {
     let mut rng = Rng::new(seed ^ 0xC11);
     let mut cases: Vec<Case> = Vec::new();
     let mut rot = 0usize;
-    let mut known = 0usize;
     for prim in PRIMS {
         // outside any pool: the global pool has `pool` threads
         for pool in POOLS {
@@ -300,14 +344,10 @@ pub fn run(seed: u64, mode: &str, out: &mut impl Write) {
         for site in ["gspawn", "gdetach"] {
             for g in GLOBALS {
                 for len in lens_for(g, thorough || g == 1) {
-                    let c = Case { prim, len, site, pool: g, g, seed: rng.next() };
-                    if known_deadlock(&c) && !thorough {
-                        // each of these costs a full watchdog period: three witnesses
-                        let keep = matches!((prim, site, len), ("ord", "gspawn", 0) | ("ord_with", "gspawn", 3) | ("ord", "gdetach", 1000));
-                        if !keep { continue; }
-                    }
-                    if known_deadlock(&c) { known += 1; }
-                    cases.push(c);
+                    // g == 1 with the ordered variant: the formerly deadlocking class, all
+                    // lengths (among them the three witnesses of the finding: ord/gspawn/0,
+                    // ord_with/gspawn/3, ord/gdetach/1000)
+                    cases.push(Case { prim, len, site, pool: g, g, seed: rng.next() });
                 }
             }
         }
@@ -320,12 +360,9 @@ pub fn run(seed: u64, mode: &str, out: &mut impl Write) {
             let len = match rng.below(4) { 0 => rng.below(8), 1 => rng.range(pool, 4 * pool + 2), 2 => rng.below(3000), _ => rng.below(100_000) };
             let site = ["outside", "install", "cspawn", "gspawn", "gdetach"][rng.below(5)];
             let g = if site == "install" || site == "cspawn" { rng.range(1, 16) } else { pool };
-            let c = Case { prim, len, site, pool, g, seed: rng.next() };
-            if known_deadlock(&c) { continue; }
-            cases.push(c);
+            cases.push(Case { prim, len, site, pool, g, seed: rng.next() });
         }
     }
-    let _ = known;
     // the CLI commands with --num-threads t, global pool of g threads
     for (prim, n) in [("cli_dcf", 3000usize), ("cli_codes", 3000), ("cli_llp", 3000), ("cli_dcf", 150), ("cli_llp", 250)] {
         for (t, g) in [(1usize, 1usize), (1, 4), (2, 1), (4, 4)] {
@@ -345,7 +382,7 @@ pub fn run(seed: u64, mode: &str, out: &mut impl Write) {
                 let c = &cases[i];
                 let t0 = Instant::now();
                 let mut r = run_child(c, watchdog);
-                if r.is_none() && !known_deadlock(c) {
+                if r.is_none() && !formerly_deadlocking(c) {
                     // a loaded machine must not produce a false deadlock: once more, patiently
                     r = run_child(c, Duration::from_secs(60));
                 }
@@ -362,7 +399,7 @@ pub fn run(seed: u64, mode: &str, out: &mut impl Write) {
         let r = results[i].lock().unwrap().take().unwrap();
         let ord = is_ord(c.prim) || c.prim == "cli_dcf";
         let e = if c.prim.starts_with("cli_") { 0 } else { expect(c.prim, c.len) };
-        writeln!(out, "pmf id=p{i} prim={} variant={} len={} site={} pool={} g={} seed={} expect={} {}",
-            c.prim, if ord { "ord" } else { "unord" }, c.len, c.site, c.pool, c.g, c.seed % 1_000_000, e, r).unwrap();
+        writeln!(out, "pmf id=p{i} prim={} variant={} len={} site={} pool={} g={} cpool={} seed={} expect={} {}",
+            c.prim, if ord { "ord" } else { "unord" }, c.len, c.site, c.pool, c.g, caller_pool(c), c.seed % 1_000_000, e, r).unwrap();
     }
 }
